@@ -20,10 +20,10 @@ from . import c14 as K14
 T0 = datetime(2021, 1, 1, tzinfo=timezone.utc)
 
 PINS = {
-    'PGPKey.add_uid': '4b9172b325eca43b', 'PGPKey.del_uid': 'ef782ed32572b539', 'PGPKey.add_subkey': '85b34b9f5c87e725', 'PGPKey.bind': 'a596300c4f9a6c24',
+    'PGPKey.add_uid': '4b9172b325eca43b', 'PGPKey.del_uid': 'ef782ed32572b539', 'PGPKey.add_subkey': '8a95c73c25186b44', 'PGPKey.bind': 'a596300c4f9a6c24',
     'PGPKey.certify': 'fa3a26a4d6fbacd9', 'PGPKey.revoke': '0a06ad2822a8071a', 'PGPKey.revoker': 'dda913b648d20985', 'PGPKey.get_uid': '02f8faf42768e92d',
-    'PGPKey.expires_at': 'd58d9d409e12c3bf', 'PGPKey.revocation_signatures': '386c01b9fb6862f3', 'PGPKey._get_key_flags': 'dc9a988c0f8dba20',
-    'PGPKey.protect': '9e6d18e357fc4384', 'PGPKey.unlock': 'a08e792702a5ffe3', 'KeyAction.__call__': '4c949a55df3a3092', 'KeyAction.usage': '16a7e9cd1f721410',
+    'PGPKey.expires_at': 'c04c00482546a72d', 'PGPKey.revocation_signatures': '386c01b9fb6862f3', 'PGPKey._get_key_flags': '499d38d8d66239a4',
+    'PGPKey.protect': '69f7ec0ca3ee5186', 'PGPKey.unlock': '1072b08798a7b550', 'KeyAction.__call__': 'c8bb870361fccd66', 'KeyAction.usage': '16a7e9cd1f721410',
 }
 
 
@@ -66,6 +66,7 @@ class RealWorld:
         self.seq = {}            # signature octets -> order of first appearance
         self.nseq = 0
         self.getuid_fail = None
+        self.adopt_fail = None
         self.shadows = []        # (original PGPKey kept alive after `copy`, its state string, its public export) -- aliasing oracle
 
     # ---- helpers
@@ -207,6 +208,26 @@ class RealWorld:
         sk = self.pgpy.PGPKey.new(*((A.EdDSA, C.Ed25519) if cansign == '1' else (A.ECDH, C.Curve25519)), created=T0)
         self.reg(sk, int(label))
         o['k'].add_subkey(sk, usage={f for f in F if int(f) & int(flags)}, created=self.t(t), hash=H.SHA256)
+
+    def op_adopt(self, k, other, t):
+        """key.add_subkey(<an existing key object that has identities of its own>): refused with PGPError before anything changes (repair a832629)"""
+        from pgpy.constants import KeyFlags as F, HashAlgorithm as H
+        o, b = self.obj(k), self.obj(other)
+        if o is None or b is None: return 'skip'
+        if len(b['k']._uids) == 0:
+            return 'skip'                      # scope: a key without identities as a subkey is what `addsub` does (with fresh material)
+        with warnings.catch_warnings():
+            warnings.simplefilter('ignore')
+            before = (bytes(o['k']), bytes(b['k']), self.key_s(o['k']), self.key_s(b['k']))
+        r = outcome(o['k'].add_subkey, b['k'], usage={F.Sign}, created=self.t(t), hash=H.SHA256)
+        with warnings.catch_warnings():
+            warnings.simplefilter('ignore')
+            after = (bytes(o['k']), bytes(b['k']), self.key_s(o['k']), self.key_s(b['k']))
+        if r[0] != 'raise' or r[1] != 'PGPError':
+            self.adopt_fail = 'add_subkey of a key with identities was not refused with PGPError: %r' % (r[:2],)
+        elif after != before:
+            self.adopt_fail = 'a refused add_subkey (key with identities) changed one of the two keys'
+        return 'PGPError' if r[0] == 'raise' and r[1] == 'PGPError' else 'ok'
 
     def op_revsub(self, k, label, t):
         from pgpy.constants import HashAlgorithm as H
@@ -560,6 +581,9 @@ def run_history_(ctx, pgpy, d, cmds, suite, check_from=0, oracle_every=True, cas
         if rw.getuid_fail is not None:
             ctx.fail(suite, 'PGPKey.get_uid at step %d (%s): %s' % (n, ' '.join(cmd), rw.getuid_fail), dict(case, step=n))
             return False
+        if rw.adopt_fail is not None:
+            ctx.fail(suite, 'add_subkey at step %d (%s): %s' % (n, ' '.join(cmd), rw.adopt_fail), dict(case, step=n))
+            return False
         if n < check_from:
             continue
         rw.note_new_sigs()
@@ -618,13 +642,14 @@ P1 = '3,-1,8,10,-1,9,7,-1,2,1,-1'        # sign+certify; SHA256 SHA512; AES256 A
 P2 = '2,-1,10,-1,9,-1,0,-1'              # sign; SHA512; AES256; uncompressed
 P3 = '12,630720000,8,-1,7,-1,1,-1'       # encrypt; expires 20 years after creation
 P4 = '1,-1,-1,-1,-1'                     # certify only; no preferences
+P5 = '2,0,8,-1,9,-1,1,-1'                # sign; key expiration time 0 = never expires (repair 96d5157)
 
 PREAMBLE = [('create', '0'), ('create', '1'), ('adduid', '0', '1', '1', P1, '1', '1'), ('adduid', '1', '1', '5', P1, '0', '1')]
 
 
 def alphabet(size):
     """operation templates; 'T' is replaced by the time of the step, 'L' by a fresh subkey label.
-    size: 'core' (10 instances) < 'small' (21) < 'full' (41)"""
+    size: 'core' (10 instances) < 'small' (23) < 'full' (46)"""
     core = [
         ('adduid', '0', '1', '3', P3, '1', 'T'),
         ('recert', '0', '1', '1', P2, '0', 'T'),
@@ -649,6 +674,8 @@ def alphabet(size):
         ('adduid', '0', '1', '11', P1, '1', 'T'),      # 'uid1' is a proper substring of this identity, which sorts first (primary, newer)
         ('certkey', '1', '0', '0', 'T'),               # third-party direct-key signature, non-exportable
         ('attest', '0', '1', '1', 'T'),                # attestation newer than (or of the same second as) the certification
+        ('adopt', '0', '1', 'T'),                      # add_subkey of key 1, which has an identity: refused, both unchanged
+        ('recert', '0', '1', '1', P5, '0', 'T'),       # key expiration 0
     ]
     full = small + [
         ('revuid', '0', '1', '3', 'T'),
@@ -664,6 +691,7 @@ def alphabet(size):
         ('certkey', '1', '0', '1', 'T'), ('certkey', '0', '0', 'n', 'T'), ('certkey', '1', '2', '0', 'T'),
         ('deluid', '0', '11'),
         ('attest', '0', '1', '3', 'T'), ('attest', '0', '0', '4', 'T'),
+        ('adopt', '1', '0', 'T'), ('adopt', '0', '2', 'T'), ('adduid', '0', '1', '6', P5, '1', 'T'),
     ]
     return {'core': core, 'small': small, 'full': full}[size]
 
@@ -697,9 +725,9 @@ def random_walk(rng, n):
         pool = cids.get(0, [1]) + [1, 2, 5, 11]
         c = rng.choice(pool)
         isu = '0' if c >= 100 else '1'
-        op = rng.choice(('adduid', 'adduid', 'recert', 'recert', 'certify', 'certify', 'certkey', 'revuid', 'attest', 'addsub', 'revsub', 'revkey', 'revoker',
+        op = rng.choice(('adduid', 'adduid', 'recert', 'recert', 'certify', 'certify', 'certkey', 'revuid', 'attest', 'adopt', 'addsub', 'revsub', 'revkey', 'revoker',
                          'deluid', 'protect', 'unlock', 'lock', 'copy', 'reimport', 'publish'))
-        P = rng.choice((P1, P2, P3, P4))
+        P = rng.choice((P1, P2, P3, P4, P5))
         if op == 'adduid':
             if rng.random() < 0.25:
                 ncid += 1; cid, isu2 = 100 + ncid, '0'
@@ -721,6 +749,8 @@ def random_walk(rng, n):
             if rng.random() < 0.5: cmds.append(('revuid', str(k), isu, str(c), str(t)))
         elif op == 'attest':
             if rng.random() < 0.6: cmds.append(('attest', str(k), isu, str(c), str(t)))
+        elif op == 'adopt':
+            if rng.random() < 0.5: cmds.append(('adopt', str(k), str(rng.choice((0, 1, nobj - 1))), str(t)))
         elif op == 'addsub':
             if len(subs) < 3:
                 cs = rng.choice('01')
@@ -808,6 +838,15 @@ CORPUS = [
                                                          ('copy', '0'), ('reimport', '0'), ('adduid', '0', '0', '104', P4, '1', '7'), ('attest', '0', '0', '104', '8'), ('revuid', '0', '0', '104', '9')]),
     ('revoked-only-identity-still-signs', [('create', '0'), ('adduid', '0', '1', '1', P3, '1', '1'), ('revuid', '0', '1', '1', '5'), ('attest', '0', '1', '1', '5'),
                                            ('addsub', '0', '10', '1', '2', '6'), ('revkey', '0', '7'), ('reimport', '0')]),
+    # repair a832629 / 1d6dbd1 / 96d5157: add_subkey of a key with identities is refused; a key whose only identity is an image certifies,
+    # revokes and binds a signing subkey; key expiration 0 means never
+    ('adopt-key-with-identities', PREAMBLE + [('adopt', '0', '1', '2'), ('adopt', '1', '0', '2'), ('adopt', '0', '0', '2'), ('publish', '1'), ('adopt', '0', '2', '3'),
+                                              ('addsub', '0', '10', '1', '2', '3'), ('adopt', '1', '0', '4'), ('protect', '0'), ('adopt', '0', '1', '5'), ('reimport', '0')]),
+    ('image-only-identity', [('create', '0'), ('create', '1'), ('adduid', '1', '1', '5', P1, '0', '1'), ('adduid', '0', '0', '104', P1, '1', '1'), ('recert', '0', '0', '104', P2, '0', '2'),
+                             ('addsub', '0', '10', '1', '2', '3'), ('certify', '0', '1', '1', '5', 'n', '3'), ('revsub', '0', '10', '4'), ('revuid', '0', '0', '104', '4'),
+                             ('adduid', '0', '1', '2', P3, '0', '5'), ('revkey', '0', '6'), ('reimport', '0'), ('publish', '0')]),
+    ('key-expiration-zero', PREAMBLE + [('recert', '0', '1', '1', P5, '1', '2'), ('adduid', '0', '1', '2', P3, '0', '3'), ('recert', '0', '1', '2', P5, '0', '4'),
+                                        ('adduid', '0', '1', '3', P5, '0', '4'), ('publish', '0'), ('reimport', '0'), ('copy', '0')]),
     ('three-primaries-revoke-middle', PREAMBLE + [('adduid', '0', '1', '2', P1, '1', '2'), ('adduid', '0', '1', '3', P1, '1', '3'), ('revuid', '0', '1', '2', '10'),
                                                  ('copy', '0'), ('reimport', '0')]),
     ('subkey-after-twin', PREAMBLE + [('publish', '0'), ('addsub', '0', '10', '1', '2', '4'), ('addsub', '0', '11', '0', '12', '4'), ('revsub', '0', '10', '4'),
